@@ -1,6 +1,14 @@
+#ifndef VP_C11_PROGRAM
+#define VP_C11_PROGRAM 1
+#endif
 // C11 — all guarantees are independent of the pointer type: the C01 / C02 programs replayed over a minimal offset pointer and a bounds/provenance-checking pointer
 #include "../fancy.hpp"
 #include "../c02.hpp"
+#if VP_C11_PROGRAM == 3
+#include "../c05.hpp"
+#elif VP_C11_PROGRAM == 4
+#include "../c07.hpp"
+#endif
 
 namespace vp {
 struct CfgOff {
@@ -21,10 +29,6 @@ struct CfgChk {
 };
 }  // namespace vp
 
-#ifndef VP_C11_PROGRAM
-#define VP_C11_PROGRAM 1
-#endif
-
 struct Prop {
 	static constexpr char const* id = "C11";
 	static constexpr int H = 13, R = 4, MAXOPS = 10;
@@ -39,9 +43,30 @@ struct Prop {
 		if(use_chk) { vp::run_c01<vp::CfgChk>(in, ctx); } else { vp::run_c01<vp::CfgOff>(in, ctx); }
 		VP_CHECK(raw.transcript == ctx.transcript, "fancy/transcript", "observable results over " << (use_chk ? "chk_ptr" : "off_ptr") << " differ from the same program over raw pointers");
 		ctx.label("program_C01");
-#else
+#elif VP_C11_PROGRAM == 2
 		if(use_chk) { vp::run_c02<vp::CfgChk>(in, ctx); } else { vp::run_c02<vp::CfgOff>(in, ctx); }
 		ctx.label("program_C02");
+#elif VP_C11_PROGRAM == 3
+		// assignment through views (the C05 program): destination views over fancy-pointer roots; sources over the same pointer family or over raw pointers
+		if(use_chk) { vp::c05::run_c05<vp::CfgChk>(in, ctx); } else { vp::c05::run_c05<vp::CfgOff>(in, ctx); }
+		ctx.label("program_C05");
+#else
+		// equality and ordering (the C07 program): operand A over the fancy family, operand B over the same family or over raw pointers
+		{
+			bool const b_fancy = (in.head(11) & 2U) != 0;
+			ctx.desc << (b_fancy ? "[B same family] " : "[B raw] ");
+			auto go = [&](auto d) {
+				constexpr int D = decltype(d)::value;
+				if(use_chk) { if(b_fancy) { vp::c07::run_d<D, vp::ChkAlloc, vp::ChkAlloc>(in, ctx); } else { vp::c07::run_d<D, vp::ChkAlloc, std::allocator>(in, ctx); } }
+				else        { if(b_fancy) { vp::c07::run_d<D, vp::OffAlloc, vp::OffAlloc>(in, ctx); } else { vp::c07::run_d<D, vp::OffAlloc, std::allocator>(in, ctx); } }
+			};
+			switch(in.head(0) % 3) {
+				case 0: go(std::integral_constant<int, 1>{}); break;
+				case 1: go(std::integral_constant<int, 2>{}); break;
+				default: go(std::integral_constant<int, 3>{}); break;
+			}
+			ctx.label("program_C07"); ctx.label(b_fancy ? "B_same_family" : "B_raw");
+		}
 #endif
 		VP_CHECK(vp::fancy_errors().empty(), "fancy/pointer_violation", vp::fancy_errors().front());
 		ctx.count("checked_dereferences", vp::chk().derefs); vp::chk().derefs = 0;
